@@ -662,7 +662,10 @@ pub fn s5_division(p: &Plan, sink: &mut Sink) {
 /// Placement sweep: every canonical memory form at six placements.
 pub fn s6_placement(p: &Plan, sink: &mut Sink) {
     sink.tag = "S6".into();
-    let flags = [0u64];
+    let flags_plain = [0u64];
+    // conditional instructions (CMOVcc, SETcc, ADC...) are placed under both flag extremes: a
+    // false condition must not make the access disappear
+    let flags_cond = [0u64, ALL_FLAGS, 0x1, 0x40];
     for t in p.canon {
         let d = decode_at(&t.bytes, IP).unwrap();
         let i = d.instr;
@@ -690,10 +693,11 @@ pub fn s6_placement(p: &Plan, sink: &mut Sink) {
         } else if sz > 1 {
             placements.push((RW + 0x801, "rw-odd".into()));
         }
+        let flags: &[u64] = if i.rflags_read() != 0 { &flags_cond } else { &flags_plain };
         for (target, name) in placements {
             let o = ValueOpts {
                 nvals: 2,
-                flags: &flags,
+                flags,
                 imms: Some(2),
                 target,
                 idx_val: 0x8,
@@ -967,7 +971,10 @@ pub fn s7_control(p: &Plan, sink: &mut Sink) {
                 }
             }
             FlowControl::IndirectBranch | FlowControl::IndirectCall => {
-                for tg in &targets {
+                let via_rsp = i.op0_kind() == OpKind::Register && i.op0_register().full_register() == Register::RSP;
+                let stack_targets = [STACK + 0x800, STACK + 0x808, STACK + 0x7f8];
+                let tlist: &[u64] = if via_rsp { &stack_targets } else { &targets };
+                for tg in tlist {
                     for f in [0u64, ALL_FLAGS] {
                         if !sink.next() {
                             continue;
@@ -1036,7 +1043,18 @@ fn extra_control_templates(c: &Census) -> Vec<Tmpl> {
             continue;
         }
         // no extra legacy prefix, one representative of: base+index*scale+disp8, rip-relative
-        if t.sig.contains("|P0|") && (t.sig.contains("bRIPi-") || (t.sig.contains("b64Ai64C") && t.sig.contains("d1g"))) {
+        if t.sig.contains("|P0|")
+            && (t.sig.contains("bRIPi-")
+                || (t.sig.contains("b64Ai64C") && t.sig.contains("d1g"))
+                // operand addressed relative to RSP: the target must be fetched with the
+                // stack pointer the instruction started with
+                || (t.sig.contains("b64SPi-") && t.sig.contains("d1g")))
+        {
+            out.push(t.clone());
+        }
+    }
+    for (k, t) in c.by_id.iter() {
+        if (k.starts_with("Call_rm64|") || k.starts_with("Jmp_rm64|")) && (k.contains("|RSP,") || k.contains("|R12,")) {
             out.push(t.clone());
         }
     }
@@ -1065,7 +1083,8 @@ pub fn s8_stack_single(p: &Plan, sink: &mut Sink) {
         (STACK + PAGE - 16, "hi-edge"),
     ];
     let flags = [0u64, ALL_FLAGS];
-    for t in p.canon {
+    let extra = extra_control_templates(p.census);
+    for t in p.canon.iter().chain(extra.iter()) {
         let d = decode_at(&t.bytes, IP).unwrap();
         let i = d.instr;
         if !i.is_stack_instruction() || native_denied(&i) {
@@ -1102,6 +1121,14 @@ pub fn s8_stack_single(p: &Plan, sink: &mut Sink) {
                                 None => continue,
                             }
                             s.gpr[4] = *rsp;
+                            if i.memory_base() == Register::RSP || i.memory_index() == Register::RSP {
+                                // operand relative to the stack pointer under test
+                                pokes.clear();
+                                match eval_ea(&bytes, IP, &s.gpr, 0, 0) {
+                                    Some(ea) if in_pages(ea, 8) => pokes.push((ea, tg.to_le_bytes().to_vec())),
+                                    _ => continue,
+                                }
+                            }
                         } else if i.op0_kind() == OpKind::Register {
                             if i.op0_register().full_register() == Register::RSP {
                                 continue;
